@@ -87,11 +87,13 @@ Print Assumptions C14_mode_maximises.
 Example C14_mode_hyp_ok : List.Forall2 (fun (d : list R) k => (k < length d)%nat) [[0; 1; -2]; [30; -30]] [2; 0]%nat.
 Proof. repeat constructor. Qed.
 
-(* squashed Gaussian: only this much holds - mode() is the image of the pre-squash maximiser, which
-   is the median of the action; it is not the density maximiser (refuted below) *)
-Theorem C14_squashed_mode_partial : forall p u mu,
-  squashed_mode p = map tanh (gauss_mode p) /\ (tanh u <= tanh mu <-> u <= mu).
-Proof. exact (fun p u mu => conj (squashed_mode_is_tanh_of_gaussian_mode p) (tanh_le_tanh_iff u mu)). Qed.
+(* squashed Gaussian: only this much holds - the pre-image of mode() maximises the pre-squash Gaussian
+   density and mode() is the median of the action (tanh is increasing); it is not the maximiser of the
+   action-space density (refuted below) *)
+Theorem C14_squashed_mode_partial :
+  (forall p xs, length xs = length p -> gauss_logprob p xs <= gauss_logprob p (map artanh (squashed_mode p))) /\
+  (forall u mu, tanh u <= tanh mu <-> u <= mu).
+Proof. exact (conj squashed_mode_preimage_maximises tanh_le_tanh_iff). Qed.
 Print Assumptions C14_squashed_mode_partial.
 
 Theorem C14_squashed_mode_not_maximiser_refuted' :
@@ -128,21 +130,40 @@ Theorem C14_gsde_positive_and_rsample :
 Proof. exact (conj expln_positive (conj gsde_variance_nonneg (conj gsde_std_positive normal_logpdf_rsample))). Qed.
 Print Assumptions C14_gsde_positive_and_rsample.
 
+(* gSDE is a diagonal Gaussian with std = sqrt(latent^2 . std^2 + eps): log_prob and entropy reduce to the
+   Gaussian ones (so additivity / mode / entropy theorems above apply); squashed gSDE = that Gaussian at the
+   inverted action minus the squash correction; sample = mean + latent . weights; squashed samples lie in (-1,1) *)
+Theorem C14_gsde_reduces_to_gaussian :
+  (forall eps x means stdcols acts, 0 < eps ->
+     gsde_logprob eps x means stdcols acts = gauss_logprob (gsde_params eps x means stdcols) acts) /\
+  (forall eps x stdcols means, 0 < eps -> length means = length stdcols ->
+     gsde_entropy eps x stdcols = gauss_entropy (gsde_params eps x means stdcols)) /\
+  (forall feps eps x means stdcols acts, List.Forall (fun a => -1 + feps <= a <= 1 - feps /\ -1 < a < 1) acts ->
+     gsde_logprob_squashed feps eps x means stdcols acts
+     = gsde_logprob eps x means stdcols (map artanh acts) - sumR (map (squash_correction eps) acts)) /\
+  (forall x means wcols,
+     gsde_sample x means wcols = map2 (fun m w => m + dot x w) means wcols /\
+     (forall j, nth j (gsde_sample x means wcols) 0 - nth j means 0
+                = if (j <? Nat.min (length means) (length wcols))%nat then dot x (nth j wcols []) else 0 - nth j means 0)) /\
+  (forall p noise, List.Forall (fun a => -1 < a < 1) (squashed_sample p noise)).
+Proof.
+  exact (conj gsde_logprob_is_gaussian (conj gsde_entropy_is_gaussian (conj gsde_logprob_squashed_spec (conj gsde_sample_spec squashed_sample_in_support)))).
+Qed.
+Print Assumptions C14_gsde_reduces_to_gaussian.
+
 (* ---------------- regenerated fragments of distributions.py ---------------- *)
 Theorem C14_fragments :
   (forall t, sum_independent_dims t =
      if dist_sum_per_row (tensor_rank t)
      then match t with T2 rows => map sumR rows | T1 v => map (fun x => x) v end
      else match t with T1 v => [sumR v] | T2 rows => [] end) /\
-  (forall y lp lm, Q2R lp = ln (1 + y) -> Q2R lm = ln (1 + - y) -> Q2R (dist_atanh lp lm) = artanh y) /\
+  (forall lp lm, Q2R (dist_atanh lp lm) = (Q2R lp - Q2R lm) / 2) /\
   (forall log_std e l1p eps,
      Q2R (fst (dist_expln log_std e l1p eps)) = expln_safe (Q2R eps) (Q2R log_std) /\
      Q2R (snd (dist_expln log_std e l1p eps)) = expln_gen (Q2R log_std) (Q2R e) (Q2R l1p)) /\
-  (forall eps p acts gacts lp corr,
-     Q2R lp = gauss_logprob p gacts -> Q2R corr = sumR (map (squash_correction eps) acts) ->
-     Q2R (dist_squash_update lp corr) = squashed_logprob_g eps p acts gacts) /\
+  (forall lp corr, Q2R (dist_squash_update lp corr) = Q2R lp - Q2R corr) /\
   (forall lp corr, Q2R (dist_gsde_squash_update lp corr) = Q2R lp - Q2R corr).
 Proof.
-  exact (conj frag_sum_per_row (conj frag_atanh_model (conj frag_expln (conj frag_squash_update_model frag_gsde_squash_update)))).
+  exact (conj frag_sum_per_row (conj frag_atanh (conj frag_expln (conj frag_squash_update frag_gsde_squash_update)))).
 Qed.
 Print Assumptions C14_fragments.
